@@ -16,7 +16,7 @@ PK=""; for c in $CRATES; do PK="$PK -p $c"; done
 echo "== tests with change: cargo nextest run $PK" >> "$LOG"
 # shellcheck disable=SC2086
 cargo nextest run $PK --no-fail-fast --tool-config-file pb:/w/lib/nextest.toml --profile pb --test-threads 8 --offline >> "$B/nextest.log" 2>&1
-cp "$CARGO_TARGET_DIR/nextest/pb/junit.xml" "$B/junit.xml" 2>/dev/null
+cp "$WT/target/nextest/pb/junit.xml" "$B/junit.xml" 2>/dev/null || cp "$CARGO_TARGET_DIR/nextest/pb/junit.xml" "$B/junit.xml"
 python3 - "$B/junit.xml" $CRATES >> "$LOG" <<'PY'
 import ast, json, sys
 import xml.etree.ElementTree as ET
